@@ -2,6 +2,7 @@ package main
 
 import (
 	"fmt"
+	"go/constant"
 	"go/token"
 	"go/types"
 	"sort"
@@ -458,6 +459,47 @@ func (w *wrapAnalysis) resolve(st *pstate, in *inst, v ssa.Value, depth int) *fv
 	return nil
 }
 
+// constOf evaluates a value that is a compile-time constant in this activation: a constant, a
+// parameter of an inlined helper whose actual argument is one, a comparison / negation of such.
+func (w *wrapAnalysis) constOf(in *inst, v ssa.Value, depth int) constant.Value {
+	if depth > 20 || in == nil {
+		return nil
+	}
+	switch x := v.(type) {
+	case *ssa.Const:
+		if x.Value == nil {
+			return nil
+		}
+		return x.Value
+	case *ssa.Parameter:
+		if in.caller == nil {
+			return nil
+		}
+		for i, p := range in.fn.Params {
+			if p == x && i < len(in.args) {
+				return w.constOf(in.args[i].in, in.args[i].v, depth+1)
+			}
+		}
+	case *ssa.ChangeType:
+		return w.constOf(in, x.X, depth+1)
+	case *ssa.UnOp:
+		if x.Op == token.NOT {
+			if c := w.constOf(in, x.X, depth+1); c != nil && c.Kind() == constant.Bool {
+				return constant.MakeBool(!constant.BoolVal(c))
+			}
+		}
+	case *ssa.BinOp:
+		switch x.Op {
+		case token.EQL, token.NEQ:
+			a, b := w.constOf(in, x.X, depth+1), w.constOf(in, x.Y, depth+1)
+			if a != nil && b != nil && a.Kind() == b.Kind() && a.Kind() != constant.Unknown {
+				return constant.MakeBool(constant.Compare(a, x.Op, b))
+			}
+		}
+	}
+	return nil
+}
+
 // ctxDerived: the value comes from the caller of this activation (parameter / captured variable).
 func ctxDerived(v ssa.Value) bool {
 	switch x := v.(type) {
@@ -474,6 +516,82 @@ func ctxDerived(v ssa.Value) bool {
 	return false
 }
 
+// goTargets collects the goroutine bodies started by f and, transitively, by what f calls (as the
+// may-access analysis resolves the calls).  ok = false: a go statement whose function cannot be named.
+func (A *Analyzer) goTargets(f *ssa.Function, seen map[*ssa.Function]bool, out *[]spawnRec) bool {
+	if f == nil || f.Blocks == nil || seen[f] {
+		return true
+	}
+	seen[f] = true
+	if s := A.sum[f]; s == nil || !s.Spawns {
+		return true
+	}
+	fa := A.frames[f]
+	ok := true
+	for _, b := range f.Blocks {
+		for _, ins := range b.Instrs {
+			ci, isCall := ins.(ssa.CallInstruction)
+			if !isCall {
+				continue
+			}
+			cc := ci.Common()
+			if _, isGo := ins.(*ssa.Go); isGo {
+				switch v := cc.Value.(type) {
+				case *ssa.MakeClosure:
+					*out = append(*out, spawnRec{v.Fn.(*ssa.Function), false})
+				case *ssa.Function:
+					if cc.IsInvoke() || v.Blocks == nil {
+						ok = false
+					} else {
+						*out = append(*out, spawnRec{v, true})
+					}
+				default:
+					ok = false
+				}
+				continue
+			}
+			if fa == nil {
+				if t := cc.StaticCallee(); t != nil && !A.goTargets(t, seen, out) {
+					ok = false
+				}
+				continue
+			}
+			ts, _, _ := fa.resolve(cc)
+			for _, t := range ts {
+				if !A.goTargets(t.fn, seen, out) {
+					ok = false
+				}
+			}
+		}
+	}
+	return ok
+}
+
+// spawnsBehind records the goroutines started behind a call that is not walked inline.
+func (w *wrapAnalysis) spawnsBehind(st *pstate, in *inst, cc *ssa.CallCommon) {
+	if !in.fa.sum.Spawns {
+		return
+	}
+	ts, _, _ := in.fa.resolve(cc)
+	for _, t := range ts {
+		if w.A.wrapperSet[t.fn] {
+			continue // an API call: its goroutines belong to that wrapper's entry
+		}
+		var out []spawnRec
+		if !w.A.goTargets(t.fn, map[*ssa.Function]bool{}, &out) {
+			st.irr = "starts a goroutine the analysis cannot resolve (behind " + fnName(t.fn) + ")"
+			return
+		}
+		for _, sp := range out {
+			if w.A.wrapperSet[sp.fn] {
+				st.api[fnName(sp.fn)] = true
+			} else {
+				st.spawns = append(st.spawns, sp)
+			}
+		}
+	}
+}
+
 // call handles one call (immediate, or a deferred one at RunDefers).  It returns true when the
 // callee is walked inline: the walk of the current block is then resumed at (retB, retI) by the
 // callee's Return.
@@ -481,6 +599,7 @@ func (w *wrapAnalysis) call(st *pstate, ins ssa.Instruction, cc *ssa.CallCommon,
 	cur := st.top()
 	in := cur.in
 	if cc.IsInvoke() {
+		w.spawnsBehind(st, in, cc)
 		w.attribute(st, in, ins)
 		return false
 	}
@@ -488,6 +607,7 @@ func (w *wrapAnalysis) call(st *pstate, ins ssa.Instruction, cc *ssa.CallCommon,
 	viaCtx := false
 	switch v := cc.Value.(type) {
 	case *ssa.Builtin:
+		w.spawnsBehind(st, in, cc)
 		w.attribute(st, in, ins)
 		return false
 	case *ssa.Function:
@@ -510,6 +630,7 @@ func (w *wrapAnalysis) call(st *pstate, ins ssa.Instruction, cc *ssa.CallCommon,
 				st.irr = "calls a function value handed in from outside the walked code (" + fnName(in.fn) + "): what it does is unknown here"
 				return false
 			}
+			w.spawnsBehind(st, in, cc)
 			w.attribute(st, in, ins)
 			return false
 		}
@@ -527,6 +648,7 @@ func (w *wrapAnalysis) call(st *pstate, ins ssa.Instruction, cc *ssa.CallCommon,
 		case loc == "?":
 			st.irr = "operates on a mutex the analysis cannot identify (" + f.Name() + " in " + fnName(in.fn) + ")"
 		default:
+			w.spawnsBehind(st, in, cc)
 			w.attribute(st, in, ins)
 		}
 		return false
@@ -544,6 +666,7 @@ func (w *wrapAnalysis) call(st *pstate, ins ssa.Instruction, cc *ssa.CallCommon,
 			}
 			// a lock-free wrapper reached through a function value: walk it
 		} else {
+			w.spawnsBehind(st, in, cc)
 			w.attribute(st, in, ins)
 			return false
 		}
@@ -551,6 +674,7 @@ func (w *wrapAnalysis) call(st *pstate, ins ssa.Instruction, cc *ssa.CallCommon,
 	if !viaCtx && !w.A.lockish[f] && len(in.fa.instrAPI[ins]) == 0 {
 		// nothing in it (or in what it is handed) operates the lock: its accesses are in this
 		// frame's own record
+		w.spawnsBehind(st, in, cc)
 		w.attribute(st, in, ins)
 		return false
 	}
@@ -558,6 +682,7 @@ func (w *wrapAnalysis) call(st *pstate, ins ssa.Instruction, cc *ssa.CallCommon,
 		if viaCtx {
 			st.irr = "calls the function value " + fnName(f) + ", whose body is not analysed"
 		} else {
+			w.spawnsBehind(st, in, cc)
 			w.attribute(st, in, ins)
 		}
 		return false
@@ -738,6 +863,18 @@ func (w *wrapAnalysis) run(st *pstate, b *ssa.BasicBlock, i int) {
 		return
 	}
 	succs := b.Succs
+	if n := len(b.Instrs); n > 0 && len(succs) == 2 {
+		// a branch on a value the call sites fix (withLock(write bool, f)): only that side
+		if br, ok := b.Instrs[n-1].(*ssa.If); ok {
+			if c := w.constOf(st.top().in, br.Cond, 0); c != nil && c.Kind() == constant.Bool {
+				if constant.BoolVal(c) {
+					succs = succs[:1]
+				} else {
+					succs = succs[1:]
+				}
+			}
+		}
+	}
 	for k, s := range succs {
 		ns := st
 		if k < len(succs)-1 {
